@@ -33,6 +33,20 @@ type caseT struct {
 	Menu  string `json:"bytes_name,omitempty"`
 	// observers: the oracle's description of the statement (obs_space.go)
 	Obs *obsDesc `json:"observers,omitempty"`
+	// identifier phase: class of the quoted identifier that the sent text holds without quotes
+	// (printedBareCheck; derived from SQL, not part of the payload); appended to the keys of
+	// what the round trip reports for the same statement
+	note string
+}
+
+// noted: the key part of a round-trip failure of a statement whose sent text already holds an
+// identifier outside its quotes: such failures are consequences of that one defect whatever
+// the node they are located in, so the location is replaced by the class of the identifier.
+func (c caseT) noted(sig string) string {
+	if c.note == "" {
+		return sig
+	}
+	return "with-identifier-printed-bare:" + c.note
 }
 
 // Statements may hold bytes that are not UTF-8 (identifier phase); JSON strings cannot, so
@@ -267,6 +281,15 @@ const (
 // roundTrip is the oracle on a statement text. It returns the outcome class and the parsed
 // tree (nil when the text is not an accepted DML statement).
 func roundTrip(col *sqlgen.Collector, c caseT) (string, sqlparser.Statement) {
+	out, t := parseDML(col, c)
+	if t == nil {
+		return out, nil
+	}
+	return roundTripParsed(col, c, t), t
+}
+
+// parseDML: the first step of roundTrip; t is nil when the text is not an accepted DML statement.
+func parseDML(col *sqlgen.Collector, c caseT) (string, sqlparser.Statement) {
 	col.Transitions(1)
 	t, err, pp := sqlgen.Parse(c.SQL)
 	if pp != "" {
@@ -280,11 +303,16 @@ func roundTrip(col *sqlgen.Collector, c caseT) (string, sqlparser.Statement) {
 	if !sqlgen.IsDML(t) {
 		return oNonDML, nil
 	}
+	return oOK, t
+}
+
+// roundTripParsed: the rest of roundTrip on the parsed tree of c.SQL.
+func roundTripParsed(col *sqlgen.Collector, c caseT, t sqlparser.Statement) string {
 	out := checkTree(col, c, t, t, "roundtrip")
 	if out == oOK && sqlgen.IsMySQL() {
 		out = databaseReading(col, c, t)
 	}
-	return out, t
+	return out
 }
 
 // databaseReading: the string literals of the received text and of the sent text, each read
@@ -331,7 +359,7 @@ func databaseReading(col *sqlgen.Collector, c caseT, t sqlparser.Statement) stri
 		// raw-prefix form '\x41' and printed as that: MySQL drops the backslash
 		class = "escaped-backslash-before-x-at-literal-start"
 	}
-	col.Violation("C13/database-reading/mysql-string-literal-altered/"+class,
+	col.Violation("C13/database-reading/mysql-string-literal-altered/"+c.noted(class),
 		fmt.Sprintf("[%s] a string literal reaches MySQL with another value: received %q, sent %q; MySQL reads %q before and %q after (all literals: %q vs %q)", c.Dialect, c.SQL, sent, a, b, recv, got), c)
 	return "literal-altered"
 }
@@ -368,7 +396,7 @@ func checkTree(col *sqlgen.Collector, c caseT, printed, want sqlparser.Statement
 			sig = "stmt:" + strings.TrimPrefix(reflect.TypeOf(want).String(), "*sqlparser.")
 		}
 		sig += reservedFuncName(sig, want)
-		col.Violation("C13/"+what+"/reparse-fails/"+sig,
+		col.Violation("C13/"+what+"/reparse-fails/"+c.noted(sig),
 			fmt.Sprintf("[%s] re-serialised text does not parse: received %q, sent %q, error %v; smallest failing expression: %q", c.Dialect, c.SQL, s1, err, min), c)
 		return "reparse-fails"
 	}
@@ -378,14 +406,14 @@ func checkTree(col *sqlgen.Collector, c caseT, printed, want sqlparser.Statement
 		if sig != "" {
 			key = sig + "/" + rel + reservedFuncName(sig, want)
 		}
-		col.Violation("C13/"+what+"/tree-differs/"+key,
+		col.Violation("C13/"+what+"/tree-differs/"+c.noted(key),
 			fmt.Sprintf("[%s] re-serialised text parses to a different tree: received %q, sent %q, first difference (expected vs re-parsed) %s; smallest failing expression: %q", c.Dialect, c.SQL, s1, d, min), c)
 		return "tree-differs"
 	}
 	col.Transitions(1)
 	s2, pp := sqlgen.Print(t1)
 	if pp != "" || s2 != s1 {
-		col.Violation("C13/"+what+"/not-fixpoint/"+strings.TrimPrefix(reflect.TypeOf(want).String(), "*sqlparser."),
+		col.Violation("C13/"+what+"/not-fixpoint/"+c.noted(strings.TrimPrefix(reflect.TypeOf(want).String(), "*sqlparser.")),
 			fmt.Sprintf("[%s] printing is not a fixpoint: %q prints as %q, whose tree prints as %q", c.Dialect, c.SQL, s1, s2), c)
 		return "not-fixpoint"
 	}
